@@ -72,6 +72,12 @@ def parse(text):
     m = re.search(r'Subtract line ' + LABEL + r' from line ' + LABEL + r'[.,; ]', t)
     if m:
         return Instr('subfloor' if floor else 'sub', a=m.group(2), b=m.group(1))
+    m = re.search(r'from Form(?:\(s\))? W-2, box (\d{1,2})\b', t)
+    if m and not re.search(r'Subtract|Multiply|Add lines|smaller|larger', t):
+        return Instr('w2sum', box=m.group(1))
+    m = re.search(r'Add the amounts on line (\d{1,2})\.', t)
+    if m:
+        return Instr('addlisting', a=m.group(1))
     cap = bool(re.search(r'If (?:greater|more) than zero, enter 0', t))
     m = re.search(r'Multiply line ' + LABEL + r' by ([0-9.]+) ?% \((0?\.[0-9]+)\)\.? .{0,40}do not enter more than (?:the amount on )?line ' + LABEL, t)
     if m:
